@@ -70,6 +70,31 @@ CLAIMED = {
             "from the model after every step.",
             "Trusted: constraint-set model; add_edge/del_edge between present blocks; duplicate constraints share one kind.",
             "5 (C30)"),
+    "C45": ("simB", "seeded operation-history simulation vs reference model, ddmin + replay",
+            "Seeded sampling of import-registration histories (library name variants, names and ordinals, bulk registrations reaching "
+            "hundreds of imports per library, unknown bases as fault) against an injective-map model; stability, injectivity and the "
+            "reverse tables are checked at every registration and again over the whole history at the end.",
+            "Trusted: dict model; library names compare case-insensitively with a default .dll extension (loader convention).",
+            "5 (C45)"),
+    "C13": ("simB", "seeded operation-history simulation vs reference model, ddmin + replay",
+            "Seeded sampling of symbolic-memory histories (overlapping writes of 8-64 bits around offset 0 modulo 2^n, reads, deletions, "
+            "state export/import into a fresh engine as restart fault, copies) judged byte by byte through a concrete valuation applied by "
+            "an evaluator independent of miasm's simplifier.",
+            "Trusted: per-base byte-map model and the small expression evaluator in simkit/b_c13.py; two address sizes (32/64).",
+            "5 (C13)"),
+    "C25": ("simB", "seeded operation-history simulation vs reference model with I/O faults, ddmin + replay",
+            "Seeded sampling of read/cursor/atomic-mode/decode histories on str, file, PE and VmMngr-backed streams with reads placed at "
+            "segment edges and holes that appear and disappear; every read, including every read the real decoders issue in atomic mode, "
+            "is compared with a byte-segment model; out-of-source reads must raise IOError and nothing else.",
+            "Trusted: byte-segment model; PE gaps/headers and ELF containers are not judged (see DESIGN).",
+            "5 (C25)"),
+    "C24": ("simB", "seeded operation/fault-history simulation of the real C memory manager vs reference model, ddmin + replay",
+            "Seeded sampling of VmMngr histories over a tiny address space (adjacent, overlapping and zero-sized pages, permission flips, "
+            "host and emulated accesses of every width incl. page-straddling ones, memory breakpoints, access-log resets) on the C extension "
+            "built from the tree; page content, permissions, lookup of every address, fault flags, breakpoint flag and recorded access sets "
+            "are compared with a model after every step.",
+            "Trusted: page/byte model; narrow counted relaxations after failed host calls and faulted accesses (see DESIGN 5, C24).",
+            "5 (C24)"),
 }
 
 
